@@ -1013,6 +1013,10 @@ func (env *Env) call(x *ast.CallExpr) Val {
 			env.fail("as: sort mismatch (%s vs %s)", v.S, e.d.SortOf(t))
 		}
 		return term(v.T, v.S, t)
+	case "sameDynType":
+		argn(2)
+		a, b := env.eval(x.Args[0]), env.eval(x.Args[1])
+		return term(fmt.Sprintf("(= (ityp %s) (ityp %s))", a.T, b.T), SBool, nil)
 	case "typeIs":
 		// typeIs(x, T): dynamic type of interface value x is T
 		argn(2)
